@@ -130,6 +130,14 @@ Definition run_polyn_eval (cs xs : list Z) : list Z :=
   map (fun x => to_bits (polyn_eval fzero ffma (map of_bits cs) (of_bits x))) xs.
 Definition run_polyn_translate (cs : list Z) (v : Z) : list Z :=
   map to_bits (polyn_translate fadd (map of_bits cs) (of_bits v)).
+(* Piecewise<PolyN>::translate: every piece through PolyN::translate, ends and count untouched *)
+Definition run_pw_translate_polyn (segs : list (list Z)) (v : Z) : list Z :=
+  Z.of_nat (length segs) ::
+  flat_map (fun s => match s with
+                     | [] => []
+                     | e :: cs => let r := polyn_translate fadd (map of_bits cs) (of_bits v) in
+                                  to_bits (of_bits e) :: Z.of_nat (length r) :: map to_bits r
+                     end) segs.
 End R.
 
 (* serialisation: token stream of the serde data-model calls, then the borsh bytes *)
